@@ -322,7 +322,12 @@ pub fn op_s(p: &Profile) -> BoxedStrategy<Op> {
     add(
         w.batch,
         (
-            vec((ks(), k.clone(), prop::option::weighted(0.75, v.clone())), 1..8),
+            // mostly small; one batch in ten is large (several writes of the same key in one batch,
+            // item counts beyond any small-sort / inline-capacity threshold)
+            prop_oneof![
+                9 => vec((ks(), k.clone(), prop::option::weighted(0.75, v.clone())), 1..8),
+                1 => vec((ks(), k.clone(), prop::option::weighted(0.75, v.clone())), 24..96),
+            ],
             0u8..5,
         )
             .prop_map(move |(items, dur)| Op::Batch {
